@@ -118,6 +118,80 @@ func elidedFrame(fn *ssa.Function) bool {
 	return fn.Synthetic != "" && !strings.HasPrefix(fn.Synthetic, "instance of") && !strings.HasPrefix(fn.Synthetic, "package initializer")
 }
 
+// Frames unwound by a panic in flight. While a panic unwinds, the real runtime still has the frames of the
+// panicking call chain on the stack: a deferred function that runs during the unwinding sees
+//   itself, runtime.gopanic, the panicking function, its callers ..., the deferring function, ...
+// The interpreter has popped those frames by then, so each frame the panic leaves is noted here (per
+// goroutine), and logicalStack splices them back in below the frame whose deferred call is running.
+type unwindState struct {
+	stack     [][]pcInfo // one list per panic in flight (panics nest: a deferred call may panic and recover); innermost frame first
+	continued bool       // the newest panic is being re-raised into the caller's frame
+}
+
+func unwindOf(fr *frame) *unwindState {
+	p := fr.i.p
+	if p == nil {
+		return nil
+	}
+	gid := 0
+	if p.sched != nil && p.sched.cur != nil {
+		gid = p.sched.cur.id
+	}
+	key := fmt.Sprintf("unwind:%d", gid)
+	u, _ := p.extra[key].(*unwindState)
+	if u == nil {
+		u = &unwindState{}
+		p.extra[key] = u
+	}
+	return u
+}
+
+// startUnwind: a panic reached fr's handler, either fresh (raised by an instruction of fr or by an
+// intrinsic it called) or continued from a callee frame.
+func startUnwind(fr *frame) {
+	u := unwindOf(fr)
+	if u == nil {
+		return
+	}
+	if !u.continued {
+		u.stack = append(u.stack, nil)
+	}
+	u.continued = false
+}
+
+// noteUnwound: the panic leaves fr (its deferred calls have run and none recovered).
+func noteUnwound(fr *frame) {
+	u := unwindOf(fr)
+	if u == nil || len(u.stack) == 0 {
+		return
+	}
+	if !elidedFrame(fr.fn) {
+		pos := token.NoPos
+		if fr.cur != nil {
+			pos = fr.cur.Pos()
+		}
+		pp := fr.i.prog.Fset.Position(pos)
+		top := len(u.stack) - 1
+		u.stack[top] = append(u.stack[top], pcInfo{fn: runtimeFuncName(fr.fn), file: pp.Filename, line: pp.Line})
+	}
+	u.continued = true
+}
+
+// clearUnwound: the newest panic was recovered in fr.
+func clearUnwound(fr *frame) {
+	if u := unwindOf(fr); u != nil && len(u.stack) > 0 {
+		u.stack = u.stack[:len(u.stack)-1]
+		u.continued = false
+	}
+}
+
+func (u *unwindState) frames() []pcInfo {
+	if len(u.stack) == 0 {
+		return nil
+	}
+	return u.stack[len(u.stack)-1]
+}
+
 // logicalStack lists the frames seen by runtime.Callers called from fr: index 0 is runtime.Callers itself.
 func logicalStack(fr *frame, self string) []pcInfo {
 	// fr is the frame of the runtime function itself (external functions get their own frame)
@@ -125,6 +199,16 @@ func logicalStack(fr *frame, self string) []pcInfo {
 	var out []pcInfo
 	pos := token.NoPos
 	for f := fr; f != nil; f = f.caller {
+		if f.inDefer && f.unwinding {
+			// f's deferred call runs because a panic is unwinding through f
+			out = append(out, pcInfo{fn: "runtime.gopanic", file: "/usr/lib/go/src/runtime/panic.go", line: 1})
+			if u := unwindOf(f); u != nil {
+				out = append(out, u.frames()...)
+			}
+			if f.cur != nil {
+				pos = f.cur.Pos()
+			}
+		}
 		if !elidedFrame(f.fn) {
 			p := fset.Position(pos)
 			out = append(out, pcInfo{fn: runtimeFuncName(f.fn), file: p.Filename, line: p.Line})
